@@ -16,6 +16,7 @@ import (
 	"runtime"
 	"sort"
 	"sync"
+	"sync/atomic"
 	"time"
 
 	"github.com/postalsys/muti-metroo/internal/vmc"
@@ -67,12 +68,50 @@ type S struct {
 	timerCost int
 	log       []string
 	logOn     bool
+	managed   sync.Map // goroutine id -> struct{}: the goroutines that are threads of this execution
 }
 
 var cur *S
 
-// Active reports whether a controlled execution is in progress.
-func Active() bool { return cur != nil && !cur.aborted }
+// Active reports whether a controlled execution is in progress AND the caller is one of its threads.
+// A harness that also has free-running goroutines calling rewritten code (agents' background loops,
+// read loops of earlier worlds) sets StrictIdentity: a goroutine that is not a thread of the execution
+// then falls back to the real primitives even while an execution is active. Goroutines spawned through
+// the Go shim outside an execution switch the identity check on by themselves.
+func Active() bool { return current() != nil }
+
+// StrictIdentity makes every shim operation check that the calling goroutine is a controlled thread.
+var StrictIdentity bool
+
+var unmanagedSpawned atomic.Int64
+
+func current() *S {
+	s := cur
+	if s == nil || s.aborted {
+		return nil
+	}
+	if !StrictIdentity && unmanagedSpawned.Load() == 0 {
+		return s
+	}
+	if _, ok := s.managed.Load(goid()); ok {
+		return s
+	}
+	return nil
+}
+
+// goid parses the goroutine id from the stack header ("goroutine 123 [running]:").
+func goid() uint64 {
+	var buf [40]byte
+	n := runtime.Stack(buf[:], false)
+	var id uint64
+	for _, ch := range buf[len("goroutine "):n] {
+		if ch < '0' || ch > '9' {
+			break
+		}
+		id = id*10 + uint64(ch-'0')
+	}
+	return id
+}
 
 // Opts configures Run.
 type Opts struct {
@@ -125,6 +164,7 @@ func (s *S) newThread(name string, f func()) *thread {
 	s.wg.Add(1)
 	go func() {
 		defer s.wg.Done()
+		s.managed.Store(goid(), struct{}{})
 		<-t.wake
 		if s.aborted {
 			t.done = true
@@ -315,8 +355,8 @@ func (s *S) switchTo(self, next *thread) {
 
 // Block parks the calling thread until enabled() holds and the explorer picks it.
 func Block(op string, enabled func() bool) {
-	s := cur
-	if s == nil || s.aborted {
+	s := current()
+	if s == nil {
 		return
 	}
 	self := s.cur
@@ -335,8 +375,9 @@ func Step() { Block("step", nil) }
 
 // Go spawns f as a new controlled thread.
 func Go(f func()) {
-	s := cur
-	if s == nil || s.aborted {
+	s := current()
+	if s == nil {
+		unmanagedSpawned.Add(1)
 		go f()
 		return
 	}
@@ -346,8 +387,9 @@ func Go(f func()) {
 
 // GoNamed is Go with a thread name (harness use).
 func GoNamed(name string, f func()) {
-	s := cur
-	if s == nil || s.aborted {
+	s := current()
+	if s == nil {
+		unmanagedSpawned.Add(1)
 		go f()
 		return
 	}
